@@ -262,15 +262,34 @@ theorem WF_stepOp {cfg s} (o : Op) (h : WF cfg s) : WF cfg (stepOp cfg o s).1 :=
 
 /-! ### exact description of `restore (save s) t` -/
 
+/-- the built-ins after `restore (save s) t`: those of `t` (re-synced if the default differs), each
+    given back the `whiteChars` it had in `s` -/
+def restoredBuiltins (s t : State) : List Expr :=
+  assignWs (if t.defaultWs != s.defaultWs then (setDefaultWs s.defaultWs t).builtins else t.builtins)
+    (s.builtins.map (·.ws))
+
 /-- what `restore (save s) t` produces: `s`, except that an enabled packrat cache is a *fresh* table of
-    the same kind and size (a disabled one is whatever table was left behind), the built-ins' whitespace
-    sets follow the restored default, user expressions are not touched, and the allocation counter moves on -/
+    the same kind and size (a disabled one is whatever table was left behind), the built-ins are
+    `restoredBuiltins` (equal to `s.builtins` whenever `t`'s built-ins are the same objects, see
+    `restoredBuiltins_eq`), user expressions are not touched, and the allocation counter moves on -/
 def restoredState (s t : State) : State :=
   { s with
     cache := if s.packratEnabled then ⟨t.gen, s.cache.kind⟩ else t.cache
     gen := if s.packratEnabled then t.gen + 1 else t.gen
-    builtins := if t.defaultWs != s.defaultWs then (setDefaultWs s.defaultWs t).builtins else t.builtins
+    builtins := restoredBuiltins s t
     users := t.users }
+
+theorem restoreWs_eq (sv : Saved) (t : State) :
+    restoreWs sv t = { t with
+      defaultWs := sv.defaultWs
+      builtins := assignWs (if t.defaultWs != sv.defaultWs then (setDefaultWs sv.defaultWs t).builtins
+                            else t.builtins) sv.builtinWs } := by
+  unfold restoreWs
+  by_cases hw : t.defaultWs = sv.defaultWs
+  · cases t
+    simp_all
+  · have : (t.defaultWs != sv.defaultWs) = true := by simpa using hw
+    simp [this, setDefaultWs]
 
 theorem restore_raw {cfg : Cfg} (hc : CfgOK cfg) {s t : State} (hs : WF cfg s) (ht : WF cfg t) :
     restore cfg (save cfg s) t = (restoredState s t, none) := by
@@ -291,57 +310,30 @@ theorem restore_raw {cfg : Cfg} (hc : CfgOK cfg) {s t : State} (hs : WF cfg s) (
     have hnd : cfg.compatAll.Nodup := by rw [hc.compatSaved]; decide
     exact restoreCompat_saved cfg.compatAll s.compat d hnd hs.compatKeys hd
   unfold restore
+  rw [restoreWs_eq]
   simp only [inlineLiterals]
-  have hd1 : keys (if t.defaultWs != (save cfg s).defaultWs then setDefaultWs (save cfg s).defaultWs t else t).diag
-      = cfg.diagAll := by
-    split <;> simp [setDefaultWs, ht.diagKeys]
-  have hc1 : keys (if t.defaultWs != (save cfg s).defaultWs then setDefaultWs (save cfg s).defaultWs t else t).compat
-      = cfg.compatAll := by
-    split <;> simp [setDefaultWs, ht.compatKeys]
-  rw [hdiag _ hd1]
+  rw [hdiag _ ht.diagKeys]
   simp only
+  have hcm := hcompat _ ht.compatKeys
   by_cases hp : s.packratEnabled = true
   · have hk := (hs.cache hp).2
     have hsel := (hs.cache hp).1
     simp only [save, hp, if_true, enablePackrat, Bool.false_eq_true, if_false, enablePackratTail]
-    have hcm := hcompat _ hc1
     simp only [save, hp, if_true] at hcm
     cases hkind : s.cache.kind with
     | null => exact absurd hkind hk
     | fifo n =>
       simp only [Cache.sizeAttr, hkind]
-      by_cases hw : t.defaultWs = s.defaultWs
-      · simp only [hw, bne_self_eq_false, Bool.false_eq_true, if_false] at hcm ⊢
-        simp only [restoredState, hp, if_true, hkind, hw, bne_self_eq_false, Bool.false_eq_true, if_false]
-        rw [hcm] <;> (try (cases s; simp_all))
-      · have hw' : (t.defaultWs != s.defaultWs) = true := by simpa using hw
-        simp only [hw', if_true] at hcm ⊢
-        simp only [restoredState, hp, if_true, hkind, hw']
-        simp only [setDefaultWs] at hcm ⊢
-        rw [hcm] <;> (try (cases s; simp_all))
+      simp only [restoredState, restoredBuiltins, hp, if_true, hkind]
+      rw [hcm] <;> (try (cases s; simp_all))
     | unbounded =>
       simp only [Cache.sizeAttr, hkind]
-      by_cases hw : t.defaultWs = s.defaultWs
-      · simp only [hw, bne_self_eq_false, Bool.false_eq_true, if_false] at hcm ⊢
-        simp only [restoredState, hp, if_true, hkind, hw, bne_self_eq_false, Bool.false_eq_true, if_false]
-        rw [hcm] <;> (try (cases s; simp_all))
-      · have hw' : (t.defaultWs != s.defaultWs) = true := by simpa using hw
-        simp only [hw', if_true] at hcm ⊢
-        simp only [restoredState, hp, if_true, hkind, hw']
-        simp only [setDefaultWs] at hcm ⊢
-        rw [hcm] <;> (try (cases s; simp_all))
+      simp only [restoredState, restoredBuiltins, hp, if_true, hkind]
+      rw [hcm] <;> (try (cases s; simp_all))
   · have hp' : s.packratEnabled = false := by simpa using hp
-    have hcm := hcompat _ hc1
     simp only [save, hp', Bool.false_eq_true, if_false] at hcm ⊢
-    by_cases hw : t.defaultWs = s.defaultWs
-    · simp only [hw, bne_self_eq_false, Bool.false_eq_true, if_false] at hcm ⊢
-      simp only [restoredState, hp', Bool.false_eq_true, if_false, hw, bne_self_eq_false]
-      rw [hcm] <;> (try (cases s; simp_all))
-    · have hw' : (t.defaultWs != s.defaultWs) = true := by simpa using hw
-      simp only [hw', if_true] at hcm ⊢
-      simp only [restoredState, hp', Bool.false_eq_true, if_false, hw']
-      simp only [setDefaultWs] at hcm ⊢
-      rw [hcm] <;> (try (cases s; simp_all))
+    simp only [restoredState, restoredBuiltins, hp', Bool.false_eq_true, if_false]
+    rw [hcm] <;> (try (cases s; simp_all))
 
 theorem obs_restoredState (s t : State) : obs (restoredState s t) = obs s := by
   by_cases h : s.packratEnabled = true <;> simp [obs, restoredState, h]
@@ -527,6 +519,54 @@ theorem stepOp_builtins (cfg : Cfg) (o : Op) (s : State) :
     simp only [stepOp]
     split <;> exact ⟨rfl, rfl⟩
   | _ => exact Or.inl ⟨rfl, rfl⟩
+
+/-- the `copyDefaultWhiteChars` flags of a list of built-ins (never changed by any command) -/
+def flagsOf (l : List Expr) : List Bool := l.map (·.copyDef)
+
+theorem flagsOf_assignWs : ∀ (l : List Expr) (ws : List (List Char)), flagsOf (assignWs l ws) = flagsOf l
+  | [], _ => by simp [assignWs]
+  | _ :: _, [] => by simp [assignWs]
+  | e :: es, w :: ws => by
+    simp only [assignWs, flagsOf, List.map_cons]
+    have := flagsOf_assignWs es ws
+    simp only [flagsOf] at this
+    rw [this]
+
+theorem flagsOf_setDefaultWs (c : String) (s : State) :
+    flagsOf (setDefaultWs c s).builtins = flagsOf s.builtins := by
+  simp only [setDefaultWs, flagsOf, List.map_map]
+  apply List.map_congr_left
+  intro e _
+  simp only [Function.comp]
+  split <;> rfl
+
+/-- giving the same objects back the sets they had in `l` yields `l` -/
+theorem assignWs_same : ∀ (l l' : List Expr), flagsOf l' = flagsOf l → assignWs l' (l.map (·.ws)) = l
+  | [], [], _ => rfl
+  | [], _ :: _, h => by simp [flagsOf] at h
+  | _ :: _, [], h => by simp [flagsOf] at h
+  | a :: l, b :: l', h => by
+    simp only [flagsOf, List.map_cons, List.cons.injEq] at h
+    simp only [List.map_cons, assignWs]
+    rw [assignWs_same l l' h.2]
+    cases a; cases b
+    simp_all
+
+theorem flagsOf_restoredBuiltins (s t : State) : flagsOf (restoredBuiltins s t) = flagsOf t.builtins := by
+  unfold restoredBuiltins
+  rw [flagsOf_assignWs]
+  split
+  · exact flagsOf_setDefaultWs _ _
+  · rfl
+
+/-- the built-ins come back exactly whenever the state inside still has the same built-in objects -/
+theorem restoredBuiltins_eq (s t : State) (h : flagsOf t.builtins = flagsOf s.builtins) :
+    restoredBuiltins s t = s.builtins := by
+  unfold restoredBuiltins
+  apply assignWs_same
+  split
+  · rw [flagsOf_setDefaultWs]; exact h
+  · exact h
 
 theorem enablePackratTail_users (sz : Option Int) (s : State) : (enablePackratTail sz s).users = s.users := by
   unfold enablePackratTail
